@@ -142,21 +142,23 @@ def drive(case, until, hold=None, stop_when=None, on_step=None, rtt=None):
             return "stopped"
         ev = W.enabled()
         wake = []
+        nbytes = {}
         if hold is not None:
             keep = []
             for e in ev:
                 if e[0] == "net.deliver":
                     w = hold(e[1])
                     if w is not None:
-                        if w > W.clock.seconds():
-                            wake.append(w)
+                        if w[0] == "at":
+                            wake.append(w[1])
                             continue
+                        nbytes[id(e[1])] = w[1]          # only the bytes that are due by now
                 keep.append(e)
             ev = keep
         if ev:
             e = ev[0]
             try:
-                W.do(e, len(e[1].s2c) if e[0] == "mb.s2c" else None)
+                W.do(e, len(e[1].s2c) if e[0] == "mb.s2c" else nbytes.get(id(e[1])) if e[0] == "net.deliver" else None)
             except Exception as ex:
                 case.escaped.append((str(e[0]), ex, None))
             case.step += 1
@@ -242,15 +244,28 @@ def run_case(c):
         paused_at_expiry = [0]
 
         def burst_hold(t, delay):
+            """one-way latency `delay` for the bytes written on t: every write becomes deliverable `delay` after it
+            was made (bytes written at the same instant travel together); returns ("n", k) when k bytes are due
+            now, or ("at", time) when nothing is due before `time`"""
             now = W.clock.seconds()
-            if id(t) not in release or release[id(t)][1] != t.sent_total:
-                # new bytes were queued: hold the whole burst for `delay`; bytes queued while a burst is
-                # still waiting travel with it
-                if id(t) not in release or release[id(t)][0] <= now:
-                    release[id(t)] = (now + delay, t.sent_total)
-                else:
-                    release[id(t)] = (release[id(t)][0], t.sent_total)
-            return release[id(t)][0]
+            segs = release.setdefault(id(t), [])
+            last_total = segs[-1][1] if segs else getattr(t, "_verif_base", None)
+            if last_total is None:
+                # first sight of this transport: whatever is already queued is due `delay` from now
+                t._verif_base = t.delivered_total
+                last_total = t.delivered_total
+            if t.sent_total > last_total:
+                segs.append((now + delay, t.sent_total))
+            due = t.delivered_total
+            for (rt, tot) in segs:
+                if rt <= now:
+                    due = max(due, tot)
+            while segs and segs[0][1] <= t.delivered_total:
+                segs.pop(0)
+            if due > t.delivered_total:
+                return ("n", due - t.delivered_total)
+            nxt = [rt for (rt, tot) in segs if tot > t.delivered_total]
+            return ("at", min(nxt)) if nxt else None
 
         def hold(t):
             now = W.clock.seconds()
@@ -259,17 +274,13 @@ def run_case(c):
             if t is not ft[0]:
                 return None
             if mode == "silent" and now >= t_silence:
-                return float("inf")
+                return ("at", 10 ** 12)
             if mode == "slow":
                 return burst_hold(t, c["delay"] * P)
             return None
         horizon = [t_conn + 12 * P]
 
-        def hold2(t):
-            r = hold(t)
-            if r == float("inf"):
-                return 10 ** 12
-            return r
+        hold2 = hold
 
         def stop_when():
             return len(mon.discs) > n_disc0
